@@ -70,6 +70,7 @@ class CoordInterp:
         self.depth = depth
         self.internal = internal
         self.summaries = summaries or {}
+        self.assume = None  # optional: test expression -> True / False / None (branch taken under the typing assumption)
 
     # ------------------------------------------------------------------ driver
     def run(self, fn: ast.FunctionDef, arg_types: Dict[str, CT], closure: Optional[Dict[str, CT]] = None) -> List[Tuple[ast.Return, CT]]:
@@ -101,6 +102,13 @@ class CoordInterp:
             rets.append((s, self.eval(s.value, env) if s.value is not None else INVC))
         elif isinstance(s, ast.If):
             self.eval(s.test, env)
+            tv = self.assume(s.test) if self.assume is not None else None
+            if tv is True:
+                self._block(s.body, env, rets)
+                return
+            if tv is False:
+                self._block(s.orelse, env, rets)
+                return
             e1, e2 = dict(env), dict(env)
             self._block(s.body, e1, rets)
             self._block(s.orelse, e2, rets)
